@@ -150,7 +150,17 @@ pub fn run(cfg: &Cfg) -> i32 {
         });
         corp.push(jo(vec![("corpus", js(*name)), ("max_nodes", ji(*maxn)), ("programs", ji(nprog.load(Ordering::Relaxed) - before))]));
     }
-    let tpl = corpus::templates();
+    let mut tpl = corpus::templates();
+    // user-defined immediate words (they run while the source is compiled; everything else runs afterwards)
+    for t in [
+        ": foo immediate 7 ; 1 foo 2",
+        ": foo immediate 7 ; : g 1 foo 2 ; g g",
+        "\"a\" print : foo immediate \"i\" print ; \"b\" print foo \"c\" print",
+        ": foo immediate 1 drop ; 3 0 do I foo loop",
+        ": foo immediate 5 ; true if 1 foo else 2 then",
+    ] {
+        tpl.push(t.to_string());
+    }
     {
         let base = boot();
         let mut local = BTreeMap::new();
